@@ -40,7 +40,7 @@ PROPS["C09"] = dict(
 PROPS["C10"] = dict(
     level="model_checking",
     stages=[dict(name="enum", module="MC_C10", cfg={"quick": "MC_C10_quick.cfg", "thorough": "MC_C10_thorough.cfg"},
-                 timeout={"quick": 300, "thorough": 1500})],
+                 timeout={"quick": 300, "thorough": 2700})],
     nontrivial=lambda r: "chain:0" not in (r.get("tags") or []),
     rule="one case per extends chain: child levels x per-block definition kind (absent/text/empty/text+parent()/parent()/"
          "parent() twice/override that nests a definition of the other block) x base kinds x 6 base layouts (top, nested, loop, if, "
